@@ -176,7 +176,7 @@ THEOREMS = {
     "visit": [T + "visit_dispatch", T + "visit1_active", T + "visit2_active"], "visitp": [T + "visit_dispatch"],
     "emplace": [T + "step_refines_partial", T + "run_refines_partial", T + "optional_refines", T + "expected_refines_partial"],
     "make": [T + "step_refines_partial", T + "run_refines_partial"],
-    "sel": [T + "narrow_eq", T + "selectK_eq", T + "selectK_none", T + "select_pointer_not_bool", T + "select_eq"],
+    "sel": [T + "narrow_eq", T + "selectK_eq", T + "specSelectK_eq", T + "selectK_none", T + "select_pointer_not_bool", T + "select_eq"],
     "assign": [T + "assign_refines_partial", T + "assign_repeated_type", T + "assign_fallback_counterexample", T + "assignSelf_refines", T + "step_refines_partial",
                T + "run_refines_partial", T + "optional_refines", T + "expected_refines_partial"],
     "ctor": [T + "construct_refines", T + "step_refines_partial", T + "run_refines_partial"],
